@@ -375,12 +375,18 @@ class Call:
 def url_quote(v, name='(Unknown name)', md={}):
     if isinstance(v, bytes):
         return urllib.parse.quote(v.decode('utf-8')).encode('utf-8')
+    if isinstance(v, TaintedString):
+        # keep the taint: a later url_unquote restores the '<'
+        return TaintedString(urllib.parse.quote(str(v)))
     return urllib.parse.quote(str(v))
 
 
 def url_quote_plus(v, name='(Unknown name)', md={}):
     if isinstance(v, bytes):
         return urllib.parse.quote_plus(v.decode('utf-8')).encode('utf-8')
+    if isinstance(v, TaintedString):
+        # keep the taint: a later url_unquote_plus restores the '<'
+        return TaintedString(urllib.parse.quote_plus(str(v)))
     return urllib.parse.quote_plus(str(v))
 
 
